@@ -228,7 +228,8 @@ func runRange(rc runCfg, id int, from, to int) batchResult {
 				done = true
 			}
 		}
-		if err == nil && done {
+		if done && (err == nil || strings.Contains(err.Error(), "exit status 66")) {
+			// exit status 66 is the race detector's "reports were written" code; the reports are read from the log
 			os.Remove(errp)
 			os.Remove(evp)
 			break
@@ -248,6 +249,8 @@ func runRange(rc runCfg, id int, from, to int) batchResult {
 	return br
 }
 
+var raceExtra int
+
 func workerInfo(bin, prop, tier string) (n, batch int, rule string, race bool, err error) {
 	out, e := exec.Command(bin, "-prop", prop, "-tier", tier, "-info").Output()
 	if e != nil {
@@ -258,10 +261,12 @@ func workerInfo(bin, prop, tier string) (n, batch int, rule string, race bool, e
 		Batch int
 		Rule  string
 		Race  bool
+		RaceN int
 	}
 	if e := json.Unmarshal(out, &info); e != nil {
 		return 0, 0, "", false, e
 	}
+	raceExtra = info.RaceN
 	return info.N, info.Batch, info.Rule, info.Race, nil
 }
 
@@ -342,6 +347,14 @@ func replayOne(bin, file, work string) (violates, crashed bool, detail string) {
 	errp := evp + ".stderr"
 	os.Remove(evp)
 	cmd := exec.Command("timeout", "-s", "QUIT", "300", bin, "-replay", file, "-out", evp, "-findings", filepath.Join(verifDir, "KNOWN_FINDINGS.txt"))
+	raceLog := ""
+	if b, err := os.ReadFile(file); err == nil && bytes.Contains(b, []byte(`"race": true`)) || bytes.Contains(b, []byte(`"race":true`)) {
+		if rb, err := build(true); err == nil {
+			raceLog = filepath.Join(work, "replay-race-"+filepath.Base(file))
+			cmd = exec.Command("timeout", "-s", "QUIT", "300", rb, "-replay", file, "-out", evp, "-findings", filepath.Join(verifDir, "KNOWN_FINDINGS.txt"))
+			cmd.Env = append(os.Environ(), "GORACE=halt_on_error=0 log_path="+raceLog)
+		}
+	}
 	ef, _ := os.Create(errp)
 	cmd.Stdout, cmd.Stderr = ef, ef
 	err := cmd.Run()
@@ -360,6 +373,16 @@ func replayOne(bin, file, work string) (violates, crashed bool, detail string) {
 	if err != nil && !ended {
 		crashed = true
 		detail = "child died: " + err.Error() + "\n" + tailFile(errp, 3000)
+	}
+	if raceLog != "" {
+		files, _ := filepath.Glob(raceLog + ".*")
+		for _, f := range files {
+			if b, _ := os.ReadFile(f); bytes.Contains(b, []byte("WARNING: DATA RACE")) {
+				violates = true
+				detail = "race detector report:\n" + string(b[:min(len(b), 2500)])
+			}
+			os.Remove(f)
+		}
 	}
 	os.Remove(evp)
 	os.Remove(errp)
@@ -474,6 +497,42 @@ func cmdRun(args []string) int {
 		}(k, j)
 	}
 	wg.Wait()
+
+	// 2b. the property's extra rounds under the race-detector build (e.g. Cancel racing Exec)
+	if raceExtra > 0 && !race && *limit == 0 {
+		rb, err := build(true)
+		if err != nil {
+			fmt.Println("INCONCLUSIVE build-failed (race build)")
+			fmt.Fprintln(os.Stderr, err)
+			return 2
+		}
+		race = true
+		rc2 := rc
+		rc2.bin = rb
+		rc2.extra = []string{"-phase", "race"}
+		rc2.env = append(rc2.env, "GORACE=halt_on_error=0 log_path="+filepath.Join(work, "race"))
+		per := 8
+		var rres []batchResult
+		var mu sync.Mutex
+		for i, id := 0, 10000; i < raceExtra; i, id = i+per, id+1 {
+			to := i + per
+			if to > raceExtra {
+				to = raceExtra
+			}
+			wg.Add(1)
+			sem <- struct{}{}
+			go func(id, from, to int) {
+				defer wg.Done()
+				defer func() { <-sem }()
+				br := runRange(rc2, id, from, to)
+				mu.Lock()
+				rres = append(rres, br)
+				mu.Unlock()
+			}(id, i, to)
+		}
+		wg.Wait()
+		results = append(results, rres...)
+	}
 
 	// 3. aggregate
 	evals, skipped, inconcl := 0, 0, 0
@@ -695,6 +754,13 @@ func cmdRun(args []string) int {
 		os.RemoveAll(work)
 	}
 	return exitCode
+}
+
+func min(a, b int) int {
+	if a < b {
+		return a
+	}
+	return b
 }
 
 func firstLines(s string, n int) string {
